@@ -58,6 +58,31 @@ Round 4 (kinds e-j of seeded/C07-9..12; the one miss, C07-12, was a ONE-SHOT ITE
       except branch (malformed text is refused: not a form the writer produces; correspondence malformed stream);
       from_*_string except branches likewise; to_immutable `_enumeration is None` (first conversion in a fresh
       interpreter: op `twin` / `alias` inside the `order` runs).
+
+Round 5 (seeded C07-15, tie-only: from_dict / from_file of Wea merged into one helper that validates, so the
+reader SORTS the steps).  Two classes:
+  (k) a reader (or writer) that NORMALISES what was written - sorts, validates against a period, removes
+      duplicates, re-derives: visible only on content that is legitimately not in canonical order.  The collection
+      classes have had unsorted / reversed / duplicated strata since round 4; the classes that hold collections
+      inside ANOTHER dictionary form had not: Wea now has strata whose steps are out of calendar order and do not
+      fill a period - built through the public constructor from unflagged discontinuous collections (wrap =
+      December before January, shuffled, reversed; spec key `ctor`, outside every recorded limitation: must read
+      back EQUAL) and through the public selections (spec key `sel`: filter_by_analysis_period over the year end
+      + filter_by_sun_up at a high latitude / + filter_by_pattern, filter_by_hoys / _moys with unsorted hours,
+      sub-hourly part-day windows) on ops dict_json / unknown_key / duplicate / pickle; correspondence rt_Wea gets the
+      same instances, rtmut_Wea the same steps reversed / rotated / swapped.  Lean: WeaC.wfScattered (no order
+      condition) + C07_Wea_steps_in_any_order (full law), _fixed, C07_Wea_reader_keeps_order,
+      C07_Wea_period_rederived_counterexample.
+  (l) a recorded finding that EXCUSES MORE THAN ITS DEVIATION: every discontinuous Wea lies in the domain of
+      C07-wea-discontinuous-validated-flag, whose match was {root, outcome: unequal}, and the first clause that
+      failed ended the case - so values / datetimes in another order were excused and the fixed point was never
+      asked.  Now an `unequal` outcome inside a recorded domain names WHAT differs (`differs`, for Wea part by
+      part; `lost`: flag / period / content), the findings match only their own deviation (Wea: lost flag / lost
+      period; categorized default names: differs eq_only), and a failure that a finding explains no longer ends the
+      case: same-dictionary-again, plain dictionary and key order are still evaluated and the first UNEXPLAINED
+      failure is reported.  Branch of Wea.from_dict newly counted: steps-do-not-fill-spanned-period (fallback to
+      the annual period).  New recorded finding C07-wea-dict-rederives-period (the dictionary carries no header
+      period; genuine, same root as the validated-flag finding).
 """
 import contextlib
 import copy
@@ -132,7 +157,7 @@ TRUSTED_BASE = [
 ]
 ASSUMPTIONS = ['object equality is the class\'s own __eq__ where defined; ColorRange, EPW and '
                'PsychrometricChart define none and are compared through their dictionaries']
-LEVEL_TEXT = ('Machine-checked Lean 4 theorems (50) over a codec model of the serial forms: json.loads(json.dumps) '
+LEVEL_TEXT = ('Machine-checked Lean 4 theorems (54) over a codec model of the serial forms: json.loads(json.dumps) '
               'modelled as jsonRT (tuples to lists, integer keys to text); the round-trip law '
               'dec(jsonRT(enc a)) = a is proved for every well-formed DateTime, Date, Time, AnalysisPeriod '
               '(incl. duplicate and token-level text), Location, Color, standard and generic DataType, Header, '
@@ -474,14 +499,21 @@ def build(spec):
             n = (8784 if spec.get('leap') else 8760) * spec.get('timestep', 1)
             dn = [float((i * 7) % 900) for i in range(n)]
             dh = [float((i * 3) % 300) for i in range(n)]
-            return L['wea'].Wea.from_annual_values(loc, S(dn), S(dh), spec.get('timestep', 1),
-                                                   bool(spec.get('leap')))
-        ts = spec['ap']['args'][6]
-        lp = bool(spec['ap']['args'][7])
+            return _wea_select(L, L['wea'].Wea.from_annual_values(loc, S(dn), S(dh), spec.get('timestep', 1),
+                                                                   bool(spec.get('leap'))), spec.get('sel') or [])
+        if spec.get('ctor') is not None:
+            return _wea_ctor(L, loc, spec['ctor'])
+        if spec.get('ap') is not None:
+            ts = spec['ap']['args'][6]
+            lp = bool(spec['ap']['args'][7])
+        else:
+            ts, lp = spec.get('timestep', 1), bool(spec.get('leap'))
         nh = (8784 if lp else 8760) * ts
         w = L['wea'].Wea.from_annual_values(loc, [float(i % 800) for i in range(nh)],
                                             [float(i % 200) for i in range(nh)], ts, lp)
-        return w.filter_by_analysis_period(build(spec['ap']))
+        if spec.get('ap') is not None:
+            w = w.filter_by_analysis_period(build(spec['ap']))
+        return _wea_select(L, w, spec.get('sel') or [])
     if c == 'EPW':
         return L['epw'].EPW(os.path.join(core.REPO, 'tests', 'assets', 'epw', spec['file']))
     if c == 'PsychrometricChart':
@@ -495,6 +527,46 @@ def build(spec):
                                           spec.get('tmax', 50), spec.get('hrmax', 0.03),
                                           spec.get('use_ip', False))
     raise ValueError('unknown spec class %r' % (c,))
+
+
+def _wea_select(L, w, sel):
+    """Round 5: the public selections of a Wea, one after the other (each gives a new Wea whose steps are the
+    chosen ones IN THE ORDER the selection leaves them: a period that wraps the year end puts December before
+    January, `filter_by_hoys` keeps the order of the hours it is given)."""
+    for st in sel:
+        k = st['k']
+        if k == 'ap':
+            w = w.filter_by_analysis_period(L['ap'].AnalysisPeriod(*st['args']))
+        elif k == 'sun_up':
+            w = w.filter_by_sun_up(st.get('alt', 0))
+        elif k == 'hoys':
+            w = w.filter_by_hoys(list(st['hoys']))
+        elif k == 'moys':
+            w = w.filter_by_moys(list(st['moys']))
+        elif k == 'pattern':
+            w = w.filter_by_pattern([bool(b) for b in st['pattern']])
+        else:
+            raise ValueError('unknown Wea selection %r' % (k,))
+    return w
+
+
+def _wea_ctor(L, loc, c):
+    """Round 5: a Wea handed two aligned discontinuous collections through its public constructor - steps in
+    ANY order (the datetimes as listed), headers as every Wea constructor writes them (source / country / city)."""
+    from ladybug.datatype.energyflux import DirectNormalIrradiance, DiffuseHorizontalIrradiance
+    ts, lp = c.get('ts', 1), bool(c.get('leap'))
+    a = c.get('ap')
+    ap = L['ap'].AnalysisPeriod(*a) if a else L['ap'].AnalysisPeriod(timestep=ts, is_leap_year=lp)
+    md = {'source': loc.source, 'country': loc.country, 'city': loc.city}
+    dts = [L['dt'].DateTime(d[0], d[1], d[2], d[3], lp) for d in c['dts']]
+    n = len(dts)
+    dn = [float((i * 37 + 5) % 900) for i in range(n)]
+    dh = [float((i * 11 + 3) % 300) + 0.5 for i in range(n)]
+    HD = L['dc'].HourlyDiscontinuousCollection
+    x = HD(L['hd'].Header(DirectNormalIrradiance(), 'W/m2', ap, dict(md)), dn, list(dts))
+    y = HD(L['hd'].Header(DiffuseHorizontalIrradiance(), 'W/m2', ap, dict(md)), dh, list(dts))
+    x._validated_a_period = y._validated_a_period = bool(c.get('validated', False))
+    return L['wea'].Wea(loc, x, y)
 
 
 def reader_class(spec, obj):
@@ -558,6 +630,68 @@ def _dt_facts(dt):
 DICT_OPS = ('dict_json', 'unknown_key', 'json_file', 'pkl')
 
 
+def _wea_rederived(spec):
+    """Does the Wea lie in the domain of the recorded limitation of its dictionary form?  (The dictionary
+    stores location, values, timestep, year kind and the datetimes; the header period, the class of the two
+    collections and their validated flag are RE-DERIVED by the reader: any Wea with discontinuous collections
+    that are flagged as validated, or whose header period is not the one the reader derives, lies in it.)
+    A Wea built from unflagged discontinuous collections over the whole year does not."""
+    if spec.get('ctor') is not None:
+        return bool(spec['ctor'].get('validated')) or bool(spec['ctor'].get('ap'))
+    if spec.get('sel'):
+        return True
+    if spec.get('annual', True):
+        return False
+    return (spec['ap']['args'][2], spec['ap']['args'][5]) != (0, 23)
+
+
+def _wea_differs(a, b):
+    """Round 5: WHAT differs between two Weas, part by part (the recorded limitation covers the re-derived parts
+    only: never the location, the values, the datetimes, their order, the timestep or the year kind)."""
+    out = []
+    if not (a.location == b.location):
+        out.append('location')
+    for nm in ('direct_normal_irradiance', 'diffuse_horizontal_irradiance'):
+        ca, cb = getattr(a, nm), getattr(b, nm)
+        va, vb = list(ca.values), list(cb.values)
+        if va != vb or [type(v) for v in va] != [type(v) for v in vb]:
+            out.append('values')
+        da, db = list(ca.datetimes), list(cb.datetimes)
+        if da != db or [d.leap_year for d in da] != [d.leap_year for d in db]:
+            out.append('datetimes')
+        ha, hb = ca.header, cb.header
+        if ha.analysis_period != hb.analysis_period:
+            out.append('header_period')
+        if str(ha.data_type) != str(hb.data_type) or ha.unit != hb.unit or ha.metadata != hb.metadata:
+            out.append('header_other')
+        if type(ca) is not type(cb):
+            out.append('collection_class')
+        if ca.validated_a_period != cb.validated_a_period:
+            out.append('validated')
+    if a.timestep != b.timestep:
+        out.append('timestep')
+    if a.is_leap_year != b.is_leap_year:
+        out.append('leap')
+    out = sorted(set(out))
+    if not out:
+        return {'differs': 'eq_only', 'lost': 'content'}
+    lost = 'flag' if out == ['validated'] else \
+        'period' if set(out) <= {'validated', 'header_period', 'collection_class'} else 'content'
+    return {'differs': '+'.join(out), 'lost': lost}
+
+
+def _differs(spec, a, b):
+    """Extra signature facts of an `unequal` outcome inside a recorded-limitation domain, so that the recorded
+    finding matches only ITS deviation and not whatever else goes wrong on the same instances."""
+    try:
+        if spec['cls'] == 'Wea':
+            return _wea_differs(a, b)
+        return {'differs': 'eq_only' if jdump(json.loads(json.dumps(a.to_dict()))) ==
+                jdump(json.loads(json.dumps(b.to_dict()))) else 'dictionary'}
+    except Exception as e:
+        return {'differs': 'raises ' + type(e).__name__}
+
+
 def root_of(op, inp):
     """Which known limitation domain (known_findings.d/C07.json) the case lies in: 'none', the
     name of exactly one domain, or 'multiple:...' (never generated: a failure there could not be
@@ -584,8 +718,7 @@ def root_of(op, inp):
         spec.get('lp') if c == 'Legend' and (spec.get('lp') or {}).get('cls') == 'LegendParametersCategorized' else None
     if lpc is not None and not lpc.get('names') and op in DICT_OPS:
         devs.add('lpc_default_names')
-    if c == 'Wea' and not spec.get('annual', True) and op in DICT_OPS and \
-            (spec['ap']['args'][2], spec['ap']['args'][5]) != (0, 23):
+    if c == 'Wea' and op in DICT_OPS and _wea_rederived(spec):
         devs.add('wea_discontinuous')
     if textual and c in ('Header', 'Collection'):
         mk = _meta_kind((spec if c == 'Header' else spec['header']).get('meta'))
@@ -652,26 +785,48 @@ def _check_plain(op, inp):
             return fail(form, _describe(x), 'raises %s: %s' % (type(e).__name__, str(e)[:200]),
                         outcome='raises', **kw)
         if not same(spec, x, back):
+            if root_of(op, inp) != 'none':
+                kw = dict(kw, **_differs(spec, x, back))
+                if kw.get('lost') == 'content' or kw.get('differs') == 'dictionary':
+                    return fail(form, _describe(x), 'differs in: %s; %s' % (kw['differs'], _describe(back)),
+                                outcome='unequal', **kw)
             return fail(form, _describe(x), _describe(back), outcome='unequal', **kw)
         return None
 
     if op == 'dict_json':
         d = x.to_dict()
         js = json.dumps(d)
+        # round 5: a failure that a recorded finding explains does not end the case - the clauses after it
+        # (same dictionary again, plain dictionary, key order) are still owed; the first UNEXPLAINED failure
+        # is the answer, else the first explained one
+        explained = []
+
+        def settle(r):
+            if r is None:
+                return False
+            if r['sig'].get('outcome') == 'raises' or _known_hit(dict(r['sig'], op=op)) is None:
+                return True
+            explained.append(r)
+            return False
         r = attempt('dict_json', lambda: rc.from_dict(json.loads(js)))
-        if r:
+        if settle(r):
             return r
         back = rc.from_dict(json.loads(js))
         # "the same dictionary": Python equality of the two dictionaries (12 == 12.0)
         if json.loads(json.dumps(back.to_dict())) != json.loads(js):
-            return fail('fixed_point', jdump(json.loads(js))[:400], jdump(back.to_dict())[:400])
+            r = fail('fixed_point', jdump(json.loads(js))[:400], jdump(back.to_dict())[:400])
+            if settle(r):
+                return r
         # the plain dictionary (no JSON) must read back too
         r = attempt('dict_plain', lambda: rc.from_dict(copy.deepcopy(x.to_dict())))
-        if r:
+        if settle(r):
             return r
         # key order
         sh = deep_shuffle(json.loads(js), rng)
-        return attempt('key_order', lambda: rc.from_dict(sh))
+        r = attempt('key_order', lambda: rc.from_dict(sh))
+        if settle(r):
+            return r
+        return explained[0] if explained else None
     if op == 'unknown_key':
         d = json.loads(json.dumps(x.to_dict()))
         d['zz_unknown_key'] = {'a': [1, 2]}
@@ -2341,10 +2496,103 @@ def _finding_examples():
         return []
 
 
+_HIGH_LAT = {'cls': 'Location', 'args': ['Helsinki', '-', 'FIN', 60.2, 24.9, 2.0, 10.0, '029740', 'IWEC']}
+
+
+def gen_wea_ctor(rng, how, ts=1, leap=False):
+    """Round 5: steps of a Wea in an order that is NOT the calendar's (plain data for build(): spec key `ctor`).
+    The steps never fill the period spanned by the first and the last of them (that is the reader's test for
+    a Wea over a whole period), so the reader must keep the annual header and the steps as listed:
+      wrap      December steps before January steps, fewer steps than days between the first and the last;
+      shuffled  steps from all over the year in random order, first and last one hour apart on one day;
+      reversed  the same in descending order."""
+    mins = [0] if ts == 1 else [i * (60 // ts) for i in range(ts)]
+    if how == 'wrap':
+        d1, d2 = rng.randrange(18, 27), rng.randrange(6, 15)
+        days = [(12, d) for d in range(d1, 32)] + [(1, d) for d in range(1, d2 + 1)]
+        n = rng.randrange(3, min(len(days) - 2, 9))
+        mid = sorted(rng.sample(range(1, len(days) - 1), n - 2))
+        h = rng.randrange(8, 14)
+        dts = [list(days[i]) + [rng.choice([h, h + 1, h + 2]), rng.choice(mins)] for i in [0] + mid + [len(days) - 1]]
+        dts[0][2:] = [h, 0]                       # first and last: the hours h .. h+2 of the day
+        dts[-1][2:] = [h + 2, 0]
+        return {'ts': ts, 'leap': leap, 'dts': dts, 'validated': False}
+    n = rng.choice([2 * ts + 2, 2 * ts + 3, 2 * ts + 6])
+    seen, dts = set(), []
+    if how == 'reversed':
+        # first = a late-evening step at the end of December, last = an early-morning step at the start of January,
+        # everything between them in descending order: the spanned period is an overnight one of >= 2 days
+        # (>= 11 * ts + 1 steps > n)
+        ends = [[12, rng.randrange(28, 32), 22, 0], [1, rng.randrange(1, 4), 3, 0]]
+    else:
+        m0, h0 = rng.randrange(1, 13), rng.randrange(0, 22)
+        d0 = rng.randrange(1, _mdays(m0, leap) + 1)
+        ends = [[m0, d0, h0, 0], [m0, d0, h0 + 1, 0]]       # spanned period: two hours of one day (< n steps)
+    seen.update(tuple(e) for e in ends)
+    while len(dts) < n - 2:
+        m = rng.randrange(2, 12)
+        d = [m, rng.randrange(1, _mdays(m, leap) + 1), rng.randrange(24), rng.choice(mins)]
+        if leap and rng.random() < 0.3:
+            d[0], d[1] = 2, 29
+        if tuple(d) not in seen:
+            seen.add(tuple(d))
+            dts.append(d)
+    if how == 'reversed':
+        return {'ts': ts, 'leap': leap, 'dts': [ends[0]] + sorted(dts, reverse=True) + [ends[1]], 'validated': False}
+    return {'ts': ts, 'leap': leap, 'dts': [ends[0]] + dts + [ends[1]], 'validated': False}
+
+
+def _round5_cases(ctx, rng, k):
+    """Round 5 (seeded C07-15): a READER THAT NORMALISES what the writer wrote (sorts, validates, removes
+    duplicates, re-derives) - on the classes that hold collections inside another dictionary form (Wea).  The
+    collection classes themselves have the unsorted / reversed / duplicated strata of round 4."""
+    ops = ('dict_json', 'unknown_key', 'duplicate', 'pickle')
+    # (1) Weas built through the public constructor from unflagged discontinuous collections over the whole year:
+    #     OUTSIDE every recorded limitation - must read back equal, steps in the order written
+    for how in ('wrap', 'shuffled', 'reversed'):
+        for ts, leap in [(1, False), (rng.choice([2, 4, 3, 60]), True)] + ([(rng.choice(TIMESTEPS), rng.random() < 0.5)
+                                                                          for _ in range(3)] if k > 1 else []):
+            ctx.count('stratum:wea_steps_' + how)
+            ctx.count('branch:Wea.from_dict:steps-do-not-fill-spanned-period')
+            spec = {'cls': 'Wea', 'location': gen_location(rng), 'annual': False, 'ctor': gen_wea_ctor(rng, how, ts, leap)}
+            for op in ops:
+                yield op, {'spec': spec, 'seed': rng.randrange(10 ** 6)}
+    # (2) the public selections that leave steps out of calendar order / not filling a period (inside the
+    #     recorded limitation of the Wea dictionary - header period, collection class and validated flag are
+    #     re-derived - which excuses THOSE parts only: location, values, datetimes and their order, timestep,
+    #     year kind and the dictionary written again are still owed)
+    wrap = [12, rng.randrange(18, 30), 0, 1, rng.randrange(2, 12), 23, 1, False]
+    sels = [
+        ('wrap_sun_up', _HIGH_LAT, 1, False, [{'k': 'ap', 'args': wrap}, {'k': 'sun_up', 'alt': rng.choice([0, 0, -6, 2])}]),
+        ('hoys_unsorted', gen_location(rng), 1, False,
+         [{'k': 'hoys', 'hoys': rng.sample(range(8760), rng.randrange(3, 9))}]),
+        ('wrap_pattern', gen_location(rng), 1, False,
+         [{'k': 'ap', 'args': [12, 30, 0, 1, 2, 23, 1, False]}, {'k': 'pattern', 'pattern': [True, False, True, True, False]}]),
+    ]
+    ts_pd = rng.choice([2, 4, 3])             # sub-hourly: the minutes of the datetime arrays matter
+    sels.append(('wrap_part_day', gen_location(rng), ts_pd, False,
+                 [{'k': 'ap', 'args': [12, 30, 8, 1, 2, 16, ts_pd, False]}]))
+    if k > 1:
+        sels += [
+            ('moys_unsorted', gen_location(rng), 2, True,
+             [{'k': 'moys', 'moys': [m * 30 for m in rng.sample(range(8784 * 2), 6)]}]),
+            ('wrap_sun_up', _HIGH_LAT, 2, True, [{'k': 'ap', 'args': [12, 24, 0, 1, 6, 23, 2, True]}, {'k': 'sun_up', 'alt': 0}]),
+            ('hoys_run_of_days', gen_location(rng), 1, False, [{'k': 'hoys', 'hoys': list(range(24, 72))}]),
+            ('annual_sun_up', _HIGH_LAT, 1, False, [{'k': 'sun_up', 'alt': 0}]),
+        ]
+    for name, loc, ts, leap, sel in sels:
+        ctx.count('stratum:wea_selection_' + name)
+        spec = {'cls': 'Wea', 'location': loc, 'annual': True, 'timestep': ts, 'leap': leap, 'sel': sel}
+        for op in ('dict_json', 'unknown_key') + (('duplicate',) if name != 'annual_sun_up' else ()):
+            yield op, {'spec': spec, 'seed': rng.randrange(10 ** 6)}
+
+
 def _oracle_cases(ctx):
     rng = ctx.rng
     for op, inp in CORPUS + _finding_examples():
         yield op, inp
+    for x in _round5_cases(ctx, rng, 5 if (ctx.searching or not ctx.quick) else 1):
+        yield x
     big = ctx.searching or not ctx.quick
     k = 5 if big else 1
 
@@ -2867,7 +3115,7 @@ def _oracle(ctx):
                 continue
             # the known-limitation domains are probed by the fixed corpus and a few generated cases
             # only: the failure list of a run is capped, and the rest of the stream must be reached
-            if r != 'none' and ctx.counters.get('root:' + r, 0) >= 6:
+            if r != 'none' and ctx.counters.get('root:' + r, 0) >= (24 if r == 'wea_discontinuous' else 6):
                 ctx.count('skipped:known-limitation-domain')
                 continue
             ctx.count('root:' + r)
@@ -3320,6 +3568,19 @@ def _correspondence(ctx):
         wspecs.append({'cls': 'Wea', 'location': gen_location(rng), 'annual': False,
                        'ap': {'cls': 'AnalysisPeriod', 'args': [m, d0, sh, m, d0 + rng.choice([0, 1, 2]), eh,
                                                                  rng.choice([1, 1, 2, 4]), False]}})
+    # round 5: steps in an order that is not the calendar's / that do not fill the spanned period (the reader's
+    # fallback branch; theorem C07_Wea_steps_in_any_order) - built through the constructor and the selections
+    for how in ('wrap', 'shuffled', 'reversed'):
+        ts_, lp_ = rng.choice([(1, False), (1, False), (2, True), (rng.choice(TIMESTEPS), rng.random() < 0.5)])
+        wspecs.append({'cls': 'Wea', 'location': gen_location(rng), 'annual': False, 'ctor': gen_wea_ctor(rng, how, ts_, lp_)})
+        ctx.count('corr:wea_steps_' + how)
+    wspecs.append({'cls': 'Wea', 'location': gen_location(rng), 'annual': True, 'timestep': 1, 'leap': False,
+                   'sel': [{'k': 'ap', 'args': [12, rng.randrange(20, 31), 0, 1, rng.randrange(1, 9), 23, 1, False]},
+                           {'k': 'pattern', 'pattern': [rng.random() < 0.6 for _ in range(7)] + [True]}]})
+    wspecs.append({'cls': 'Wea', 'location': gen_location(rng), 'annual': True, 'timestep': 1, 'leap': False,
+                   'sel': [{'k': 'hoys', 'hoys': rng.sample(range(8760), rng.randrange(2, 9))}]})
+    wspecs.append({'cls': 'Wea', 'location': gen_location(rng), 'annual': True, 'timestep': 1, 'leap': False,
+                   'sel': [{'k': 'ap', 'args': [12, 30, 8, 1, 2, 16, 1, False]}]})
     wds = real_dicts(wspecs)
     _model_rt(ctx, 'rt_Wea', 'Wea', wds, L['wea'].Wea.from_dict)
     wm = []
@@ -3340,6 +3601,15 @@ def _correspondence(ctx):
             else:
                 v['is_leap_year'] = True
             wm.append(v)
+        if 'datetimes' in d and len(d['datetimes']) > 2:
+            # round 5: the same steps in another order (values with them): reversed, rotated, two swapped
+            n_ = len(d['datetimes'])
+            for perm in (list(range(n_ - 1, -1, -1)), list(range(1, n_)) + [0],
+                         [n_ - 1] + list(range(1, n_ - 1)) + [0]):
+                v = copy.deepcopy(d)
+                for k_ in ('datetimes', 'direct_normal_irradiance', 'diffuse_horizontal_irradiance'):
+                    v[k_] = [d[k_][i_] for i_ in perm]
+                wm.append(v)
     _model_rt(ctx, 'rtmut_Wea', 'Wea', wm, L['wea'].Wea.from_dict)
 
     # text forms: str.split, data-type text, CSV header strings
